@@ -464,7 +464,9 @@ def run(ctx):
                           "statements are valid Unicode strings (the engine API takes &str): invalid UTF-8 cannot reach the parser; control characters, NUL, unpaired-looking sequences and U+FFFD are used instead",
                           "table CONTENTS after a failed INSERT are not part of the catalog/settings state compared here"]
     out["wall"] = time.time() - t0
-    return out
+    # front end proved total: tokenizer + Pratt expression parser skeleton (model/Lexer.v, ParserSkel.v, props/C15lex.v)
+    from . import c15lex
+    return common.merge_results(out, c15lex.run(ctx), "lexer_parser_front_end")
 
 
 def replay(ctx, payload):
